@@ -1,5 +1,6 @@
 /- Helper lemmas for C04: the per-lane sort stage is a permutation. Core Lean only. -/
 import AiuVerif.Model.OverlapSort
+import AiuVerif.Lemmas.OverlapNoAssert
 
 namespace AiuVerif.Overlap
 
@@ -55,5 +56,134 @@ theorem sortStage_perm (evs : List Ev) : (sortStage evs).Perm evs := by
   unfold sortStage
   refine (drainQueues_perm _).trans ?_
   simpa [flattenQ] using foldl_enqueue_perm evs []
+
+/-! ### the sort stage leaves every lane start-sorted -/
+
+theorem mem_insertBy {x y : Ev} {l : List Ev} : y ∈ insertBy x l ↔ y = x ∨ y ∈ l := by
+  rw [(insertBy_perm x l).mem_iff]; simp
+
+theorem mem_isort {y : Ev} {l : List Ev} : y ∈ isort l ↔ y ∈ l := (isort_perm l).mem_iff
+
+theorem keyLe_ts {x y : Ev} (h : keyLe x y = true) : x.ts ≤ y.ts := by
+  simp only [keyLe, Bool.or_eq_true, Bool.and_eq_true, decide_eq_true_eq] at h
+  grind
+
+theorem not_keyLe_ts {x y : Ev} (h : ¬ keyLe x y = true) : y.ts ≤ x.ts := by
+  simp only [keyLe, Bool.or_eq_true, Bool.and_eq_true, decide_eq_true_eq] at h
+  grind
+
+theorem insertBy_sorted (x : Ev) (l : List Ev) (h : l.Pairwise (fun a b => a.ts ≤ b.ts)) :
+    (insertBy x l).Pairwise (fun a b => a.ts ≤ b.ts) := by
+  induction l with
+  | nil => simp [insertBy]
+  | cons y r ih =>
+    obtain ⟨hy, hr⟩ := List.pairwise_cons.mp h
+    unfold insertBy
+    split
+    · rename_i hk
+      refine List.Pairwise.cons ?_ h
+      intro z hz
+      rcases List.mem_cons.mp hz with hz | hz
+      · subst hz; exact keyLe_ts hk
+      · exact Rat.le_trans (keyLe_ts hk) (hy z hz)
+    · rename_i hk
+      refine List.Pairwise.cons ?_ (ih hr)
+      intro z hz
+      rcases mem_insertBy.mp hz with hz | hz
+      · subst hz; exact not_keyLe_ts hk
+      · exact hy z hz
+
+theorem isort_sorted (l : List Ev) : (isort l).Pairwise (fun a b => a.ts ≤ b.ts) := by
+  induction l with
+  | nil => simp [isort]
+  | cons x r ih => exact insertBy_sorted x _ ih
+
+/-- the dict of queues: every queue holds events of its own lane, keys are distinct -/
+def QInv (qs : List (Lane × List Ev)) : Prop :=
+  (∀ lq ∈ qs, ∀ e ∈ lq.2, e.lane = lq.1) ∧ qs.Pairwise (fun a b => a.1 ≠ b.1)
+
+theorem enqueue_keys (qs : List (Lane × List Ev)) (e : Ev) :
+    ∀ b ∈ enqueue qs e, b.1 = e.lane ∨ ∃ b' ∈ qs, b'.1 = b.1 := by
+  induction qs with
+  | nil => intro b hb; simp [enqueue] at hb; exact Or.inl (by rw [hb])
+  | cons lq r ih =>
+    obtain ⟨l, q⟩ := lq
+    intro b hb
+    unfold enqueue at hb
+    split at hb
+    · rcases List.mem_cons.mp hb with hb | hb
+      · right; exact ⟨(l, q), by simp, by rw [hb]⟩
+      · right; exact ⟨b, by simp [hb], rfl⟩
+    · rcases List.mem_cons.mp hb with hb | hb
+      · right; exact ⟨(l, q), by simp, by rw [hb]⟩
+      · rcases ih b hb with h | ⟨b', hb', h⟩
+        · exact Or.inl h
+        · right; exact ⟨b', by simp [hb'], h⟩
+
+theorem enqueue_QInv (qs : List (Lane × List Ev)) (e : Ev) (h : QInv qs) : QInv (enqueue qs e) := by
+  induction qs with
+  | nil =>
+    refine ⟨?_, by simp [enqueue]⟩
+    intro lq hlq e' he'
+    simp [enqueue] at hlq
+    subst hlq
+    simp at he'
+    rw [he']
+  | cons lq r ih =>
+    obtain ⟨l, q⟩ := lq
+    obtain ⟨h1, h2⟩ := h
+    obtain ⟨h2a, h2b⟩ := List.pairwise_cons.mp h2
+    have hr : QInv r := ⟨fun lq hlq => h1 lq (List.mem_cons_of_mem _ hlq), h2b⟩
+    unfold enqueue
+    split
+    · rename_i hl
+      refine ⟨?_, List.Pairwise.cons (fun b hb => h2a b hb) h2b⟩
+      intro lq hlq e' he'
+      rcases List.mem_cons.mp hlq with hlq | hlq
+      · subst hlq
+        rcases List.mem_append.mp he' with he' | he'
+        · exact h1 (l, q) (by simp) e' he'
+        · simp at he'; rw [he']; exact hl.symm
+      · exact h1 lq (List.mem_cons_of_mem _ hlq) e' he'
+    · rename_i hl
+      obtain ⟨i1, i2⟩ := ih hr
+      refine ⟨?_, List.Pairwise.cons ?_ i2⟩
+      · intro lq hlq e' he'
+        rcases List.mem_cons.mp hlq with hlq | hlq
+        · subst hlq; exact h1 (l, q) (by simp) e' he'
+        · exact i1 lq hlq e' he'
+      · intro b hb
+        rcases enqueue_keys r e b hb with hb | ⟨b', hb', hb⟩
+        · rw [hb]; exact hl
+        · rw [← hb]; exact h2a b' hb'
+
+theorem foldl_enqueue_QInv (evs : List Ev) : ∀ qs, QInv qs → QInv (evs.foldl enqueue qs) := by
+  induction evs with
+  | nil => intro qs h; exact h
+  | cons e r ih => intro qs h; exact ih _ (enqueue_QInv qs e h)
+
+theorem drainQueues_laneSorted (qs : List (Lane × List Ev)) (h : QInv qs) :
+    LaneSorted (drainQueues qs) := by
+  induction qs with
+  | nil => simp [drainQueues, LaneSorted]
+  | cons lq r ih =>
+    obtain ⟨h1, h2⟩ := h
+    obtain ⟨h2a, h2b⟩ := List.pairwise_cons.mp h2
+    have hr : QInv r := ⟨fun lq hlq => h1 lq (List.mem_cons_of_mem _ hlq), h2b⟩
+    have ih' := ih hr
+    unfold LaneSorted at ih' ⊢
+    simp only [drainQueues, List.flatMap_cons] at ih' ⊢
+    rw [List.pairwise_append]
+    refine ⟨List.Pairwise.imp (fun hab _ _ _ => hab) (isort_sorted lq.2), ih', ?_⟩
+    intro a ha b hb _ _ hl
+    exfalso
+    have hla : a.lane = lq.1 := h1 lq (by simp) a (mem_isort.mp ha)
+    obtain ⟨lq', hlq', hb'⟩ := List.mem_flatMap.mp hb
+    have hlb : b.lane = lq'.1 := h1 lq' (List.mem_cons_of_mem _ hlq') b (mem_isort.mp hb')
+    exact h2a lq' hlq' (by rw [← hla, ← hlb, hl])
+
+/-- what `sort_events` establishes for `overlap_detection`: every lane is start-sorted -/
+theorem sortStage_laneSorted (evs : List Ev) : LaneSorted (sortStage evs) :=
+  drainQueues_laneSorted _ (foldl_enqueue_QInv evs [] ⟨by simp, by simp⟩)
 
 end AiuVerif.Overlap
